@@ -10,10 +10,9 @@ def bins_for(tier):
     return ["sched_%s%02d" % (tag, i) for i in range(16 if tier == "quick" else 96)]
 
 def ensure_sources(tier):
-    tag = tier[0]
-    d = os.path.join(HARNESS, "src", "bin")
-    if not os.path.exists(os.path.join(d, "sched_%s00.rs" % tag)):
-        sh(["python3", "tools/gen_sched.py", tier, "src"], cwd=HARNESS)
+    # the generator only rewrites files whose content changes, so this is cheap and keeps the bins
+    # of a tier in step with the alphabet
+    sh(["python3", "tools/gen_sched.py", tier, "src"], cwd=HARNESS)
 
 def headers(trace):
     """line number -> header dict for every run of a schedule trace, plus simple statistics."""
